@@ -31,9 +31,11 @@ from aldy.solutions import CNSolution, MajorSolution, SolvedAllele
 PROPERTY = "C13"
 LEVEL = "model_checking"
 FUNCTIONS = ["aldy.major.estimate_major/solve_major_model", "aldy.minor.estimate_minor/"
-             "solve_minor_model", "aldy.cn.solve_cn_model", "aldy.gene.Gene (both builds)"]
+             "solve_minor_model", "aldy.cn.solve_cn_model", "aldy.gene.Gene (both builds)",
+             "aldy.sam.Sample._make_coverage", "aldy.gene.Gene.{get_functional,is_functional} "
+             "(effect inference)"]
 STUBS = ["as C02/C03/C04 (capturing backend, symbolic counts, identity filter)"]
-OUTSIDE = ["alignments produced against each build (I/O); catalogue equality itself is C09, "
+OUTSIDE = ["reads aligned against each build by an aligner (I/O); catalogue equality itself is C09, "
            "coordinate maps C08", "shipped genes other than the listed ones"]
 ASSUMPTIONS = ["evidence is transported between builds through RefSeq notation: the count "
                "of a variant is the same symbol in both builds, depth per site 10*cn"]
@@ -74,6 +76,9 @@ def configs(tier):
             c.append({"kind": "cn", "gene": g, "max_cn": mc})
     for g in ("GA", "GB", "GD"):
         c.append({"kind": "pileup", "gene": g})
+    # inferred effect of substitutions that are not in the catalogue (novel core variants)
+    for g in ("toy", "GA", "GB", "GD"):
+        c.append({"kind": "infer", "gene": g})
     if tier == "thorough":
         c.append({"kind": "major", "gene": "cyp2c19", "cn": ["1", "1"], "support": 4})
         c.append({"kind": "major", "gene": "cyp2d6", "cn": ["1", "1"], "support": 4})
@@ -83,6 +88,69 @@ def configs(tier):
 
 def run_config(cfg):
     return globals()["run_" + cfg["kind"]](cfg)
+
+
+def _infer_case(genes, r, alt):
+    """the same RefSeq substitution (0-based index r, RefSeq alt base) expressed against
+    each build; returns {build: (effect, functional)}"""
+    from aldy.common import rev_comp
+
+    out = {}
+    for b, g in genes.items():
+        if r not in g.ref_to_chr:
+            return None
+        ref = g.seq[r]
+        pos = g.ref_to_chr[r]
+        op = f"{ref}>{alt}" if g.strand > 0 else f"{rev_comp(ref)}>{rev_comp(alt)}"
+        if (pos, op) in g.mutations:
+            return None  # catalogued: not inferred
+        out[b] = (g.get_functional((pos, op)), g.is_functional((pos, op)))
+    return out
+
+
+def run_infer(cfg):
+    res = new_result(cfg)
+    eng = Engine(name="c13i")
+    genes = {b: gengene.load(cfg["gene"], b) for b in ("hg19", "hg38")}
+    g19 = genes["hg19"]
+    n = len(g19.seq)
+    ri, ai = z3.Int("refseq_index"), z3.Int("alt")
+    lo = max(0, min(s for s, e in g19.exons) - 2)
+    hi = min(n, max(e for s, e in g19.exons) + 2)
+    if hi - lo > 400:
+        hi = lo + 400
+    tag = f"infer/{cfg['gene']}"
+
+    def run():
+        r = eng.choose(ri, range(lo, hi))
+        alt = "ACGT"[eng.choose(ai, range(4))]
+        if alt == g19.seq[r]:
+            raise symx.PathAbort()
+        out = _infer_case(genes, r, alt)
+        if out is None:
+            raise symx.PathAbort()
+        return (r, alt), out
+
+    k = 0
+    for dec, pc, (case, out) in eng.explore(run, [], max_paths=100000):
+        k += 1
+        same = out["hg19"] == out["hg38"]
+        ob(res, f"{tag}: a substitution outside the catalogue gets the same inferred effect "
+                "in both builds", "holds" if same else "sat")
+        if not same:
+            res["violations"].append({
+                "what": f"{tag}: RefSeq {case[0] + 1}{g19.seq[case[0]]}>{case[1]}: hg19 "
+                        f"{out['hg19']}, hg38 {out['hg38']}", "key": "infer:" + cfg["gene"],
+                "replay": {"kind": "infer", "gene": cfg["gene"], "r": case[0],
+                           "alt": case[1]}})
+    seen = {}
+    for v in res["violations"]:
+        seen.setdefault(v["key"], v)
+    res["violations"] = list(seen.values())
+    res["stats"] = {**dict(eng.stats), "paths": k}
+    res["obligations"] = [{"label": o["label"], "status": o["status"], "secs": 0}
+                          for o in res["obligations"]]
+    return res
 
 
 def _pileup_tables(gname):
@@ -549,6 +617,10 @@ def replay(o):
 
     if o["kind"] == "cn":
         return True, "structure models differ (symbolic)"
+    if o["kind"] == "infer":
+        genes = {b: gengene.load(o["gene"], b) for b in ("hg19", "hg38")}
+        out = _infer_case(genes, o["r"], o["alt"])
+        return out["hg19"] != out["hg38"], f"hg19 {out['hg19']}, hg38 {out['hg38']}"
     if o["kind"] == "pileup":
         genes, byref = _pileup_tables(o["gene"])
         out = _pileup_case(genes, byref, o["case"])
